@@ -83,7 +83,8 @@ fn gen_metadata(r: &mut Rng, allow_details_key: bool) -> MetadataMap {
     };
     for _ in 0..n {
         let mut k = *r.pick(KEYS);
-        if allow_details_key && r.chance(1, 25) {
+        // the unreserved protocol name of F-C04e: about one status in six holds an entry of it
+        if allow_details_key && r.chance(1, 12) {
             k = "grpc-status-details-bin";
         }
         if k.ends_with("-bin") {
@@ -165,9 +166,12 @@ const SANITIZED: &[&str] = &["te", "user-agent", "content-type", "grpc-message",
 /// The property's direct check on what was written, independent of the model AND (for the wire
 /// format) of tonic's decoders: grpc-status is the decimal code, grpc-message percent-decodes
 /// (own decoder) to the message, grpc-status-details-bin is unpadded base64 (own decoder) of the
-/// details, every value is a legal header value, and Status::from_header_map reads an equal
-/// status back (metadata: the target map extended by the status metadata minus the reserved
-/// names).  `base` = what the target map held before (content-type for into_http).
+/// details and ABSENT for empty details - whatever the status metadata or the target map held under
+/// that name (F-C04e, fixed by ed827503: STRICT, no exception) -, every value is a legal header
+/// value, and Status::from_header_map reads an equal status back: the details are the status's own
+/// in ALL cases; metadata: the target map extended by the status metadata minus the reserved
+/// names and minus the three status header names.  `base` = what the target map held before
+/// (content-type for into_http).
 fn judge_written(code: u32, msg: &str, details: &[u8], mdh: &HeaderMap, base: &HeaderMap, hm: &HeaderMap) -> Option<String> {
     for (k, v) in hm.iter() {
         if !legal_value(v.as_bytes()) {
@@ -179,7 +183,6 @@ fn judge_written(code: u32, msg: &str, details: &[u8], mdh: &HeaderMap, base: &H
         return Some(format!("grpc-status is not exactly the decimal code {}", code));
     }
     let stale_msg = base.contains_key("grpc-message");
-    let stale_det = base.contains_key("grpc-status-details-bin") || mdh.contains_key("grpc-status-details-bin");
     let mv: Vec<_> = hm.get_all("grpc-message").iter().collect();
     if !msg.is_empty() {
         if mv.len() != 1 {
@@ -207,30 +210,27 @@ fn judge_written(code: u32, msg: &str, details: &[u8], mdh: &HeaderMap, base: &H
         if indep_b64(raw).as_deref() != Some(details) {
             return Some("grpc-status-details-bin does not decode to the details".into());
         }
-    } else if !stale_det && !dv.is_empty() {
-        return Some("grpc-status-details-bin written for empty details".into());
-    }
-    // the target map already carried a grpc-message / grpc-status-details-bin that this status
-    // does not overwrite (only possible for add_header into a caller-supplied map): what is read
-    // back is then the caller's stale header - outside the property (premise of
-    // c04_add_header_roundtrip), tie only
-    if (msg.is_empty() && stale_msg) || (details.is_empty() && base.contains_key("grpc-status-details-bin")) {
-        return None;
+    } else if !dv.is_empty() {
+        return Some("a grpc-status-details-bin header is in the written map although the status has no details (F-C04e)".into());
     }
     let b = match Status::from_header_map(hm) {
         None => return Some("status not found in the headers it was written to".into()),
         Some(b) => b,
     };
-    if b.code() as i32 as u32 != code {
-        return Some(format!("code {} read back as {}", code, b.code() as i32));
+    // the target map already carried a grpc-message that this status (empty message) does not
+    // overwrite (only possible for add_header into a caller-supplied map): code and message read
+    // back are then decided by the caller's stale header - outside the property (premise of
+    // c04_add_header_roundtrip); details and metadata are judged all the same
+    if !(msg.is_empty() && stale_msg) {
+        if b.code() as i32 as u32 != code {
+            return Some(format!("code {} read back as {}", code, b.code() as i32));
+        }
+        if b.message() != msg {
+            return Some("message changed".into());
+        }
     }
-    if b.message() != msg {
-        return Some("message changed".into());
-    }
-    // empty details + a grpc-status-details-bin entry in the metadata / target map: not judged
-    // (observation, see checks/C04.json)
-    if (!details.is_empty() || !stale_det) && b.details() != details {
-        return Some("details changed".into());
+    if b.details() != details {
+        return Some("details changed: the status read back does not have the status's own details".into());
     }
     let bm = b.metadata().clone().into_headers();
     let mut names: std::collections::BTreeSet<String> = Default::default();
@@ -260,6 +260,11 @@ fn judge_written(code: u32, msg: &str, details: &[u8], mdh: &HeaderMap, base: &H
 }
 
 fn case_written(out: &mut Out, sink: Sink, code: u32, msg: &str, details: &[u8], md: MetadataMap, pre: HeaderMap, corpus: bool) {
+    case_written_tag(out, sink, code, msg, details, md, pre, if corpus { Some("") } else { None });
+}
+/// `tag`: None = a generated case (kind = the sink's), Some("") = corpus.<sink>,
+/// Some("F-C04e") = corpus.F-C04e.<sink> (the witness family of a fixed finding)
+fn case_written_tag(out: &mut Out, sink: Sink, code: u32, msg: &str, details: &[u8], md: MetadataMap, pre: HeaderMap, tag: Option<&str>) {
     let mdh = md.clone().into_headers();
     let st = Status::with_details_and_metadata(Code::from_i32(code as i32), msg.to_string(), Bytes::copy_from_slice(details), md);
     let stc = status_coq(code, msg.as_bytes(), details, &mdh);
@@ -290,8 +295,23 @@ fn case_written(out: &mut Out, sink: Sink, code: u32, msg: &str, details: &[u8],
     if sink == Sink::Into {
         out.hist("add_header.into.pre_entries", pre.len());
     }
+    // the shape of F-C04e: a grpc-status-details-bin entry among the status metadata (or in the
+    // target map), with / without details of the status's own
+    let det_entry = mdh.contains_key("grpc-status-details-bin") || pre.contains_key("grpc-status-details-bin");
+    out.hist(
+        &format!("{}.details_bin_entry", k),
+        match (det_entry, details.is_empty()) {
+            (false, _) => "none",
+            (true, true) => "entry, status WITHOUT details (F-C04e shape)",
+            (true, false) => "entry, status with details",
+        },
+    );
     out.push(Case {
-        kind: if corpus { format!("corpus.{}", k) } else { k.to_string() },
+        kind: match tag {
+            None => k.to_string(),
+            Some("") => format!("corpus.{}", k),
+            Some(t) => format!("corpus.{}.{}", t, k),
+        },
         input: json!({"code": code, "msg": hex(msg.as_bytes()), "details": hex(details), "md": hm_json(&mdh), "pre": hm_json(&pre)}),
         model,
         impl_obs: obs,
@@ -344,10 +364,15 @@ fn case_capacity(out: &mut Out, sink: Sink, names: usize, dups: usize, msg: &str
     if !msg.is_empty() {
         fin.insert("grpc-message".into());
     }
+    // the map is at its fullest before the last step: a status without details finally REMOVES
+    // grpc-status-details-bin (fix ed827503), a removal cannot panic
+    let peak = fin.len() + if !details.is_empty() && !fin.contains("grpc-status-details-bin") { 1 } else { 0 };
     if !details.is_empty() {
         fin.insert("grpc-status-details-bin".into());
+    } else {
+        fin.remove("grpc-status-details-bin");
     }
-    let fits = fin.len() <= HM_MAX_NAMES;
+    let fits = peak <= HM_MAX_NAMES;
     // http's insert reserves a slot before it looks the name up: a map that is exactly full
     // refuses even a name it already holds.  Only possible when the target map already had one
     // of the names that are written; not tonic's to decide - tie only.
@@ -1292,6 +1317,7 @@ fn main() {
         let c = if v.get("first_disagreement").is_some() { &v["first_disagreement"] } else { &v };
         let (kind, inp) = (c["kind"].as_str().unwrap_or(""), &c["input"]);
         let kind = kind.strip_prefix("corpus.").unwrap_or(kind);
+        let kind = kind.strip_prefix("F-C04e.").unwrap_or(kind);
         let sink = if kind.starts_with("roundtrip") {
             Some(Sink::Fresh)
         } else if kind.starts_with("trailers") || kind.starts_with("capacity.trailers") {
@@ -1380,6 +1406,65 @@ fn main() {
         pre.insert("x-keep", HeaderValue::from_static("old"));
         pre.insert("x-pre", HeaderValue::from_static("stays"));
         case_written(&mut out, Sink::Into, 7, "denied", b"\x01", md, pre, true);
+    }
+    // F-C04e (fixed ed827503): a status whose custom metadata holds an entry named
+    // grpc-status-details-bin (not a reserved name: it survives sanitising).  With EMPTY details the
+    // entry used to stay in the written map and was read back as the details of the status.  Every
+    // code x {no message, message} x {no details, details} x the entry with 1-2 values (ASCII-looking
+    // text that is valid base64, text that is not, binary through the typed API) x every way a
+    // status is written (add_header into a fresh map, to_header_map = the trailers of a server
+    // stream, into_http) and read back with from_header_map; plus add_header into a target map that
+    // already holds such a header.  The oracle is strict: no details header for empty details, the
+    // details read back are the status's own.
+    {
+        fn det_md(values: &[&[u8]], raw_text: bool) -> MetadataMap {
+            let mut md = MetadataMap::new();
+            md.append(MetadataKey::from_static("x-keep"), MetadataValue::from_static("1"));
+            for v in values {
+                if raw_text {
+                    // as a peer or a careless caller would file it: the header text itself
+                    md.as_mut().append(HeaderName::from_static("grpc-status-details-bin"), HeaderValue::from_bytes(v).unwrap());
+                } else {
+                    md.append_bin(MetadataKey::from_bytes(b"grpc-status-details-bin").unwrap(), MetadataValue::from_bytes(v));
+                }
+            }
+            md
+        }
+        let entries: Vec<(Vec<&[u8]>, bool)> = vec![
+            (vec![&b"user"[..]], true),                       // valid unpadded base64 of [0xba, 0xab, 0x2b]: the witness
+            (vec![&b"AQ"[..]], true),                         // base64 of [1]
+            (vec![&b"not base64!"[..]], true),                // undecodable: used to degrade the status to UNKNOWN
+            (vec![&b"QUJD"[..], &b"REVG"[..]], true),         // two values: the first one used to be read
+            (vec![&b"\x00\xff\x07"[..]], false),              // binary through the typed API (stored as base64)
+            (vec![&b""[..], &b"\x80\x81"[..]], false),         // an empty binary value first
+        ];
+        for code in 0..17u32 {
+            for msg in ["", "no"] {
+                for det in [&b""[..], &b"\x01\x02"[..]] {
+                    // every code on the witness entry; the other entries on three codes (OK, a common one, the last)
+                    for (i, (vals, raw)) in entries.iter().enumerate() {
+                        if i > 0 && ![0u32, 7, 16].contains(&code) {
+                            continue;
+                        }
+                        for sink in [Sink::Fresh, Sink::Trailers, Sink::IntoHttp] {
+                            case_written_tag(&mut out, sink, code, msg, det, det_md(vals, *raw), HeaderMap::new(), Some("F-C04e"));
+                        }
+                    }
+                }
+            }
+        }
+        // the same header stale in the TARGET map of add_header (with and without an entry in the
+        // metadata as well): removed / replaced likewise
+        for (code, msg, det) in [(7u32, "no", &b""[..]), (7, "", b""), (3, "m", b"\x01"), (0, "", b"")] {
+            for md_too in [false, true] {
+                let mut pre = HeaderMap::new();
+                pre.insert("x-pre", HeaderValue::from_static("stays"));
+                pre.append("grpc-status-details-bin", HeaderValue::from_static("c3RhbGU"));
+                pre.append("grpc-status-details-bin", HeaderValue::from_static("!!"));
+                let md = if md_too { det_md(&[&b"user"[..]], true) } else { MetadataMap::new() };
+                case_written_tag(&mut out, Sink::Into, code, msg, det, md, pre, Some("F-C04e"));
+            }
+        }
     }
     // F-C04d (fixed 08dc8d0b): many VALUES under one name through the trailers of a server stream
     for (names, dups, msg) in [(0usize, 24574usize, "m"), (0, 24574, ""), (0, 24573, "m"), (0, 30000, "m"), (24574, 0, ""), (1, 24573, "")] {
